@@ -239,16 +239,16 @@ Definition start4 : str := [0; 0; 0; 1].
 Definition h265_handlers (E : ext) : handlers h265 :=
   [($"sprop-vps", fun v s =>
       match b64_decode v with
-      | Some b => Some (mkH265 (h265_pt s) (Some (trim_prefix start4 b)) (h265_sps s) (h265_pps s) (h265_maxdon s))
+      | Some b => Some (mkH265 (h265_pt s) (Some (strip_all start4 b)) (h265_sps s) (h265_pps s) (h265_maxdon s))
       | None => None end);
    ($"sprop-sps", fun v s =>
       match b64_decode v with
-      | Some b => let b' := trim_prefix start4 b in
+      | Some b => let b' := strip_all start4 b in
                   if x_h265sps E b' then Some (mkH265 (h265_pt s) (h265_vps s) (Some b') (h265_pps s) (h265_maxdon s)) else None
       | None => None end);
    ($"sprop-pps", fun v s =>
       match b64_decode v with
-      | Some b => let b' := trim_prefix start4 b in
+      | Some b => let b' := strip_all start4 b in
                   if x_h265pps E b' then Some (mkH265 (h265_pt s) (h265_vps s) (h265_sps s) (Some b') (h265_maxdon s)) else None
       | None => None end);
    ($"sprop-max-don-diff", num_handler (fun n s => mkH265 (h265_pt s) (h265_vps s) (h265_sps s) (h265_pps s) n))].
@@ -262,8 +262,8 @@ Definition h264_handlers (E : ext) : handlers h264 :=
               match b64_decode b with
               | None => None
               | Some pps0 =>
-                  let sps := trim_prefix start4 sps0 in
-                  let pps := trim_prefix start4 pps0 in
+                  let sps := strip_all start4 sps0 in
+                  let pps := strip_all start4 pps0 in
                   if x_h264sps E sps then Some (mkH264 (h264_pt s) (Some sps) (Some pps) (h264_pmode s))
                   else Some s         (* `continue` *)
               end
@@ -503,10 +503,10 @@ Definition codec_clock (rtpmap : str) : str * str :=
   | _ => ([], [])
   end.
 
-(* decodeFMTP: insertion into a Go map, later duplicates overwrite *)
+(* decodeFMTP: each pair is strings.TrimSpace'd; insertion into a Go map, later duplicates overwrite *)
 Definition decode_fmtp (enc : str) : list (str * str) :=
   fold_left (fun m kv =>
-    let kv' := trim_sp kv in
+    let kv' := trim_space kv in
     match kv' with
     | [] => m
     | _ => match cut 61 kv' with
